@@ -460,7 +460,8 @@ func ruleC16Accounting(c *Ctx) {
 	var argIndex ssa.Value
 	allInstrs(f, func(_ *ssa.BasicBlock, in ssa.Instruction) {
 		if ia, isIA := in.(*ssa.IndexAddr); isIA {
-			if p, isP := ia.X.(*ssa.Parameter); isP && p.Name() == "args" {
+			// the argument list: the variadic parameter, whatever it is called
+			if p, isP := ia.X.(*ssa.Parameter); isP && f.Signature.Variadic() && len(f.Params) > 0 && p == f.Params[len(f.Params)-1] {
 				argIndex = ia.Index
 			}
 		}
